@@ -152,6 +152,21 @@ def pair_judge(case):
         if got_label != want_label:
             raise Violation("label-real-pair", f"ColorPair({a},{b},large={large}).is_readable = {got_label!r}, expected {want_label!r} (ratio {r})")
         cls.append(f"label:{want_level}:{'large' if large else 'normal'}")
+    if case.get("bulk"):
+        # the bulk status is the label of the colour the bulk call RETURNS (also when the fix fell short of very_readable)
+        large = case["bulk"]["large"]
+        try:
+            out = make_readable_bulk([(a, b, large)], mode=case["bulk"]["mode"], very_readable=True)
+        except Exception as e:
+            raise Violation(exc_bucket(e), f"make_readable_bulk([({a}, {b}, {large})], very_readable=True) raised {e!r}")
+        col, status = out[0]
+        if isinstance(col, tuple) and len(col) == 3:
+            vs = [ow.meets(tuple(col), b, t) for t in ((3.0, 4.5) if large else (4.5, 7.0))]
+            if None not in vs:
+                want = "very readable" if vs[1] else ("readable" if vs[0] else "not readable")
+                if status != want:
+                    raise Violation("bulk-status-of-returned-colour", f"make_readable_bulk([({a}, {b}, {large})], mode={case['bulk']['mode']}, very_readable=True) returned {col} labelled {status!r}; WCAG label of that colour is {want!r} (ratio {ow.ratio(tuple(col), b):.4f})")
+                cls.append("bulk-very-readable:" + want.replace(" ", "-"))
     near = min(abs(r / t - 1) for t in ow.THRESHOLDS)
     return {"nt": ("pair", a, b), "cls": cls + ["near-threshold" if near < 0.03 else "far"], "sample": {"a": list(a), "b": list(b), "ratio": r}}
 
@@ -159,7 +174,9 @@ def pair_judge(case):
 def pair_strategy():
     near = gc.pair_near().map(lambda t: {"a": list(t[0]), "b": list(t[1])})
     uni = st.tuples(gc.rgb(), gc.rgb()).map(lambda t: {"a": list(t[0]), "b": list(t[1])})
-    return st.one_of(near, near, uni)
+    base = st.one_of(near, near, uni)
+    bulk = st.one_of(st.none(), st.fixed_dictionaries({"large": st.booleans(), "mode": st.sampled_from([0, 1, 2])}))
+    return st.tuples(base, st.integers(0, 19), bulk).map(lambda t: dict(t[0], **({"bulk": t[2]} if (t[1] == 0 and t[2]) else {})))
 
 
 # ---- labels at exact ratios -----------------------------------------------------------------------------
